@@ -1,1 +1,6 @@
 import XPathV.Theorems.C05
+#print axioms XPathV.Theorems.C05.no_shared_closure_writes
+#print axioms XPathV.Theorems.C05.globals_not_written
+#print axioms XPathV.Theorems.C05.cache_writes_locked
+#print axioms XPathV.Theorems.C05.evaluations_share_no_state
+#print axioms XPathV.Theorems.C05.concurrent_equals_sequential
